@@ -231,6 +231,50 @@ def run(prop, tier, seed, replay):
             expect.append(("header", (1 | 2 | (4 if has_w else 0) | (8 if has_z else 0))))
             reqs.append(f"s{ci} split {workers} {min(n, c)}")
             expect.append(("split", [len(x) for x in np.array_split(np.arange(min(n, c)), workers)]))
+        # ---- controlled pool: the parts of a chunk are delivered in a chosen order; asynchronous submissions complete
+        #      only when waited for (DESIGN 5.C02: "all orders in which workers deliver their part") --------------------
+        import multiprocessing
+        from unittest import mock
+        from ctrl_pool import CtrlPool
+        orders = [("identity", lambda k: list(range(k))), ("reversed", lambda k: list(range(k))[::-1]),
+                  ("rotated", lambda k: list(range(1, k)) + [0] if k else [])]
+        for si, (n, c, workers) in enumerate([(41, 10, 3), (23, 7, 2), (40, 10, 4), (9, 20, 3)][: 4 if tier == "quick" else 4]):
+            nprng = np.random.default_rng(rng.randrange(2 ** 32))
+            cdeg = np.array([[20.0, -10.0], [40.0, 5.0], [60.0, 25.0]])
+            pid = np.arange(n) % 3
+            ra = np.deg2rad(cdeg[pid, 0] + nprng.uniform(-2, 2, n))
+            dec = np.deg2rad(cdeg[pid, 1] + nprng.uniform(-2, 2, n))
+            w = nprng.choice([1.0, 2.0, 0.5], n)
+            cols = {"ra": ra, "dec": dec, "weights": w, "redshifts": None}
+            names = ["ra", "dec", "weights"]
+            exp_rows = Counter(rows_as_bytes(expected_records(cols, False), names))
+            for label, order in orders:
+                CtrlPool.order, CtrlPool.log, CtrlPool.dropped = staticmethod(order), [], 0
+                rep = {"n": n, "chunksize": c, "workers": workers, "source": "df", "mode": "centers",
+                       "delivery_order_of_the_parts_of_a_chunk": label,
+                       "cols": {k: (None if v is None else v.tolist()) for k, v in cols.items()}, "centres_deg": cdeg.tolist()}
+                try:
+                    with C.Workers(workers), mock.patch.object(multiprocessing, "Pool", CtrlPool):
+                        cat = Catalog.from_dataframe(root / f"s{si}", pd.DataFrame({"ra": ra, "dec": dec, "w": w}),
+                                                     ra_name="ra", dec_name="dec", weight_name="w",
+                                                     patch_centers=AngularCoordinates(np.deg2rad(cdeg)), chunksize=c,
+                                                     degrees=False, overwrite=True)
+                    got = Counter()
+                    for p_ in Catalog(root / f"s{si}").keys():
+                        d = cat[p_].load_data()
+                        got.update(rows_as_bytes({k: d[k] for k in names}, names))
+                except Exception as e:  # noqa: BLE001
+                    ck.add_violation(f"creation under a controlled worker schedule ({label}) raised {type(e).__name__}: {e}", rep)
+                    C.remove(root / f"s{si}")
+                    continue
+                C.remove(root / f"s{si}")
+                ck.count(f"controlled-pool:{label}")
+                ck.case(None, ("ctrl", n, c, workers, label))
+                if got != exp_rows:
+                    lost = exp_rows - got
+                    ck.add_violation(f"with the parts of each chunk delivered in '{label}' order (work submitted asynchronously "
+                                     f"completes when waited for; {CtrlPool.dropped} submissions were never waited for) "
+                                     f"{sum(lost.values())} of {n} records are not stored", rep)
         # ---- groupby (the splitting of a chunk by patch index): keys with gaps, single occurrences, few / many keys -----
         from yaw.utils import groupby
         for gi in range(12 if tier == "quick" else 120):
